@@ -57,11 +57,18 @@ CHECKS = {
                 "strict monotonicity of float times, agreement with "
                 "analytic solutions, or the numeric heuristics that shorten "
                 "the time frame after a failed cycle.",
-        "technique": "statement CFG with labelled test outcomes: dominance "
-                     "and avoiding-path queries per rule; symbolic normal "
-                     "form of the J terms compared by case splitting; "
-                     "call-binding rules; polynomial identity for the "
-                     "buffer size",
+        "technique": "run_ode as a boolean program: sound inlining of "
+                     "single-assignment locals, then a relational fixpoint "
+                     "over partial valuations of its flags, order atoms "
+                     "(every spelling of a comparison is a formula over "
+                     "lt/le atoms) and a typestate monitor (reset, step, "
+                     "collect, row state/control/check ghosts) with "
+                     "requirements at the events; CFG avoiding-path queries "
+                     "for the retry bound and the search's termination; the "
+                     "J kernel's loops summarised from one symbolic round "
+                     "(path inlining + symbolic normal forms), terms "
+                     "compared by case splitting, buffer size by polynomial "
+                     "identity per path of j_from_ode",
     },
     "C07": {
         "text": "Agreement of the TTP error counter with its documented "
